@@ -80,4 +80,61 @@ def rule_frames(prog):
             if sk.ok is None and key_ in first_bad:
                 sk = first_bad[key_]
             out.add(b["d"], "%s %s" % (sk.kind, sk.what), sk.ok, c.loc(sk.sp), sk.msg, (sk.kind, fname, "path:" + fpath))
+    _loop_descent(prog, out)
     return out
+
+
+def _locals_in(e):
+    from . import hir
+    return {p["res"]["id"] for p in hir.nodes(e, "Path") if p["res"].get("k") == "Local"}
+
+
+def _loop_descent(prog, out):
+    """S8 - iterative descent.  A loop that walks down through nested References (`cur = <child of cur>`) has to add up the offset
+    of *every* level it crosses: whatever is assigned inside that loop from `cur.offset` must also be fed by a value the loop itself
+    carries (`origin += cur.offset`, `origin = origin + cur.offset`, `abs = parent_abs + cur.offset; parent_abs = abs`).  An
+    assignment built from `cur.offset` and loop-invariant values only forgets all levels but the last: it is right for a nesting
+    depth of one and wrong beyond.  Loops of another shape produce no instance."""
+    from . import hir
+    for b in prog.bodies():
+        if not relevant(b):
+            continue
+        c = b["_crate"]
+        fpath = c.file_of(b["sp"])
+        fname = fpath.rsplit("/", 1)[-1]
+        if fname == "mod.rs" and fpath.count("/") >= 1:
+            fname = fpath.rsplit("/", 2)[-2] + ".rs"
+        for lp in hir.nodes(b["body"]):
+            if lp.get("k") not in ("Loop", "While"):
+                continue
+            assigns = [a for a in hir.nodes(lp["body"]) if a.get("k") in ("Assign", "AssignOp")]
+            carried = {}
+            for a in assigns:
+                l = hir.strip(a["l"])
+                if l.get("k") == "Path" and l["res"].get("k") == "Local":
+                    carried.setdefault(l["res"]["id"], []).append(a)
+            # the cursor: a carried local of Reference type that is re-assigned from itself (or from a pattern binding of a match on it)
+            cursors = set()
+            for vid, asg in carried.items():
+                for a in asg:
+                    l = hir.strip(a["l"])
+                    if a["k"] == "Assign" and "ast::Reference<" in c.tstr(l.get("t")):
+                        cursors.add(vid)
+            if not cursors:
+                continue
+            for vid, asg in carried.items():
+                if vid in cursors:
+                    continue
+                for a in asg:
+                    if a["k"] != "Assign":
+                        continue
+                    uses_cur_off = any(f["name"] == "offset" and (_locals_in(f["base"]) & cursors) for f in hir.nodes(a["r"], "Field"))
+                    if not uses_cur_off:
+                        continue
+                    fed = (_locals_in(a["r"]) - cursors) & set(carried)
+                    calls = any(x.get("k") in ("Call", "MethodCall") for x in hir.nodes(a["r"]))
+                    ok = True if fed else (None if calls else False)
+                    out.add(b["d"], "S8 an origin computed in a descent loop adds up every level crossed", ok, c.loc(a["sp"]),
+                            "assigned from the cursor's `.offset` and %s" % ("a value carried by the loop" if fed else
+                            "loop-invariant values only: the offsets of all levels but the last are dropped (right for one level of "
+                            "nesting, wrong beyond)"), ("S8", fname, "path:" + fpath))
